@@ -89,6 +89,48 @@ func shapes(thorough bool) []Shape {
 	return out
 }
 
+// gcSplitShapes: layouts in which one region holds two or more secondaries of the victim while the primary lives in
+// another region - what a GC lock-resolution pass needs to meet several locks of one dead transaction in one region
+// (family "gc-split": the primary is overwritten by somebody else before the pass, the region splits between the
+// scanned locks while the pass's batch ResolveLock is on the wire, the data GC follows the pass).
+func gcSplitShapes(thorough bool) []Shape {
+	type base struct {
+		muts   []Mut
+		splits []string
+		pre    []string
+	}
+	bases := []base{
+		{[]Mut{{"k1", MPut}, {"k2", MPut}, {"k3", MPut}}, []string{"k2"}, []string{"k1", "k2", "k3"}},
+	}
+	if thorough {
+		bases = append(bases,
+			base{[]Mut{{"k1", MPut}, {"k2", MPut}, {"k3", MPut}, {"k4", MPut}}, []string{"k2"}, []string{"k1", "k2", "k3", "k4"}},
+			base{[]Mut{{"k4", MPut}, {"k1", MPut}, {"k2", MInsert}, {"k3", MPut}}, []string{"k4"}, []string{"k1", "k3", "k4"}},
+		)
+	}
+	var out []Shape
+	for _, be := range []string{uni.Mock, uni.Uni} {
+		if only := os.Getenv("VERIF_CRASH_BACKEND"); only != "" && only != be {
+			continue
+		}
+		for _, pess := range []bool{false, true} {
+			if only := os.Getenv("VERIF_CRASH_PESS"); only != "" && (only == "1") != pess {
+				continue
+			}
+			modes := [][2]bool{{false, false}}
+			if be == uni.Uni {
+				modes = append(modes, [2]bool{true, false})
+			}
+			for _, m := range modes {
+				for _, b := range bases {
+					out = append(out, Shape{Backend: be, Pessimistic: pess, Async: m[0], OnePC: m[1], Muts: b.muts, Splits: b.splits, Pre: b.pre})
+				}
+			}
+		}
+	}
+	return out
+}
+
 func withSkipSleep() func() {
 	_ = failpoint.Enable("tikvclient/fastBackoffBySkipSleep", "return")
 	return func() { failpoint.Disable("tikvclient/fastBackoffBySkipSleep") }
@@ -110,7 +152,7 @@ func dryRun(r *vrep.Report, sh Shape) ([]Point, string, *work.TxnRec, bool) {
 }
 
 func TestVerifC02(t *testing.T) {
-	r := vrep.New("C02", "c02-crash", "for every small transaction shape (1-4 keys over 1-3 regions, put/delete/insert/lock-only, optimistic+pessimistic, 2PC on mocktikv and unistore, async commit and 1PC on unistore) a fault-free dry run yields the RPC trace of Commit; then for every request of that trace the client store is killed with the request never delivered / delivered but unanswered; afterwards the virtual clock passes every TTL, a fresh observer reads all keys (get, batch get, scan at a new and at an earlier snapshot), runs one GC resolve pass, and the per-key MVCC truth is audited: all-or-nothing at every snapshot and in the truth, one commit ts, no lock left, ack consistency; distinct = distinct (shape, crash point, delivered?, outcome, recovery path)")
+	r := vrep.New("C02", "c02-crash", "for every small transaction shape (1-4 keys over 1-3 regions, put/delete/insert/lock-only, optimistic+pessimistic, 2PC on mocktikv and unistore, async commit and 1PC on unistore) a fault-free dry run yields the RPC trace of Commit; then for every request of that trace the client store is killed with the request never delivered / delivered but unanswered; afterwards the virtual clock passes every TTL, a fresh observer reads all keys (get, batch get, scan at a new and at an earlier snapshot), runs one GC resolve pass, and the per-key MVCC truth is audited: all-or-nothing at every snapshot and in the truth, one commit ts, no lock left, ack consistency; recovery companions in rotation (regions split, warm reader, two readers, locker, GC pass first, leaders move, GC pass whose region splits between the locks it scanned before its batch ResolveLock arrives, reader whose resolver requests - CheckTxnStatus / CheckSecondaryLocks / ResolveLock / PessimisticRollback - meet a region that changed under them); every successful GC pass is held to its contract (no lock with start ts <= safe point left in the MVCC truth); family gc-split: layouts with several secondaries in one region, primary overwritten by another client before the pass, data GC at the pass's safe point after it (mocktikv), readers with their own status cache afterwards; distinct = distinct (shape, crash point, delivered?, outcome, recovery path)")
 	defer r.Finish(t)
 	tr := vrep.New("C04", "c04-on-c02", "C04 trace monitor over the C02 crash executions (owner killed; recovery by observer resolvers and one GC pass)")
 	defer tr.Finish(t)
@@ -146,14 +188,48 @@ func TestVerifC02(t *testing.T) {
 						comps = []Companion{CompNone, Companion(1 + crng.Intn(int(NCompanions)-1)), Companion(1 + crng.Intn(int(NCompanions)-1))}
 					}
 					for _, comp := range comps {
-						runCrash(r, tr, sh, pt, delivered, primary, comp)
+						runCrash(r, tr, sh, pt, delivered, primary, comp, crashOpt{pick: nExec / int(NCompanions)})
 					}
 				}
 			}
 		}
 		r.Flush()
 	}
+	// family gc-split: every crash point of the layouts with several secondaries in one region, recovered by a GC pass
+	// whose region splits between the scanned locks, after the primary was overwritten and before the data GC
+	for _, sh := range gcSplitShapes(vrep.Thorough()) {
+		pts, primary, drec, ok := dryRun(r, sh)
+		if !ok {
+			continue
+		}
+		if drec.CommitClass != work.ENone {
+			r.Violate("dry-run-commit-failed", fmt.Sprintf("%s: fault-free Commit returned %q", sh, drec.CommitErr), nil)
+			continue
+		}
+		r.Count("gc_split_family_shapes", 1)
+		for pi, pt := range pts {
+			for _, delivered := range []bool{false, true} {
+				reps := 1
+				if vrep.Thorough() {
+					reps = 2
+				}
+				for rep := 0; rep < reps; rep++ {
+					runCrash(r, tr, sh, pt, delivered, primary, CompGCSplit, crashOpt{pick: pi + rep + int(vrep.Seed()), family: true})
+					r.Count("gc_split_family_executions", 1)
+				}
+			}
+		}
+		r.Flush()
+	}
 	r.Floor("crash_executions", 100)
+	r.Floor("gc_split_family_executions", 20)
+	// the families the recovery companions exist for must have been exercised, not just scheduled
+	r.Floor("gc_split_between_scanned_locks", 10)
+	r.Floor("gc_split_overwrites", 10)
+	r.Floor("data_gc_regions", 5)
+	r.Floor("resolver_region_error:CheckTxnStatus", 5)
+	r.Floor("resolver_region_error:ResolveLock", 5)
+	r.Floor("resolver_region_error:CheckSecondaryLocks", 3)
 	r.Floor("outcome_committed", 10)
 	r.Floor("outcome_rolled_back", 10)
 	r.Floor("ack_known_success", 5)
@@ -162,13 +238,25 @@ func TestVerifC02(t *testing.T) {
 	}
 }
 
-func runCrash(r, tr *vrep.Report, sh Shape, pt Point, delivered bool, primary string, comp Companion) {
+// crashOpt: pick varies the seed/rotation dependent choices of a companion; family = the gc-split family (primary
+// overwritten before the GC pass, data GC after it)
+type crashOpt struct {
+	pick   int
+	family bool
+}
+
+func runCrash(r, tr *vrep.Report, sh Shape, pt Point, delivered bool, primary string, comp Companion, opt crashOpt) {
 	env, err := NewEnv(sh)
 	if err != nil {
 		r.Inconc("%s: env: %v", sh, err)
 		return
 	}
 	defer env.Close()
+	env.Pick = opt.pick
+	if opt.family {
+		env.OverwriteBeforeGC = []string{primary}
+		env.DataGC = true
+	}
 	commitReturned := make(chan struct{})
 	m := NewMatcher()
 	var fired, ackAtKill atomic.Bool
@@ -216,6 +304,9 @@ func runCrash(r, tr *vrep.Report, sh Shape, pt Point, delivered bool, primary st
 		return
 	}
 	r.Count("companion:"+comp.String(), 1)
+	for k, n := range env.CovCounts() {
+		r.Count(k, n)
+	}
 	if env.LockerLivelock.Load() {
 		r.Violate("recovery-livelock:locker", fmt.Sprintf("%s @%s delivered=%v companion=%s: a pessimistic transaction locking the dead transaction's keys after their locks expired sent more than %d requests in one LockKeys call without finishing", sh, pt, delivered, comp, LockerRPCBound),
 			map[string]any{"shape": sh.String(), "point": pt.String(), "delivered": delivered, "calls_tail": callTail(env, 30)})
@@ -229,6 +320,9 @@ func runCrash(r, tr *vrep.Report, sh Shape, pt Point, delivered bool, primary st
 	r.Eval(1)
 	r.Count("crash_executions", 1)
 	label := fmt.Sprintf("%s @%s delivered=%v companion=%s", sh, pt, delivered, comp)
+	if opt.family {
+		label += "+primary-overwritten+data-gc"
+	}
 	for _, p := range v.Problems {
 		r.Violate(p.Sig, label+": "+p.Msg, map[string]any{"shape": sh.String(), "point": pt.String(), "delivered": delivered, "companion": comp.String(), "ack_known": ackKnown,
 			"commit_class": rec.CommitClass, "commit_err": rec.CommitErr, "observations": obs, "calls": callDump(env)})
@@ -450,6 +544,9 @@ type injected struct {
 	cleanupLost bool
 }
 
+// nFaultExec counts the fault executions of this process (rotation of the recovery companions)
+var nFaultExec int
+
 func runFaults(r, tr *vrep.Report, sh Shape, primary string, plan []*injected) {
 	env, err := NewEnv(sh)
 	if err != nil {
@@ -538,11 +635,36 @@ func runFaults(r, tr *vrep.Report, sh Shape, primary string, plan []*injected) {
 		keys = append(keys, mu.Key)
 	}
 	t0, _ := env.Obs.Store.CurrentTimestamp("global")
-	obs, gcw, err := env.Recover(keys, []uint64{t0})
+	// who recovers: mostly a plain observer; transactions whose second phase was lost for good after Commit answered
+	// (sticky plans on async commit / 1PC) and every eighth execution are recovered by a resolver whose region cache
+	// goes stale under its requests, another eighth by a GC pass whose region splits between the scanned locks
+	comp := CompNone
+	nFaultExec++
+	env.Pick = nFaultExec / 8
+	stickyBackground := false
+	for _, in := range plan {
+		if in.sticky != nil && in.fired.Load() && (sh.Async || sh.OnePC) {
+			stickyBackground = true
+		}
+	}
+	switch {
+	case stickyBackground || nFaultExec%8 == 3:
+		comp = CompResolverRegionErr
+	case nFaultExec%8 == 7:
+		comp = CompGCSplit
+	}
+	obs, gcws, err := env.RecoverWith(keys, []uint64{t0}, comp)
 	label := fmt.Sprintf("%s faults=%v", sh, names)
+	if comp != CompNone {
+		label += " recovery=" + comp.String()
+	}
 	if err != nil {
 		r.Inconc("%s: recovery: %v", label, err)
 		return
+	}
+	r.Count("recovery:"+comp.String(), 1)
+	for k, n := range env.CovCounts() {
+		r.Count(k, n)
 	}
 	v, err := env.Judge(rec, obs, true)
 	if err != nil {
@@ -609,11 +731,11 @@ func runFaults(r, tr *vrep.Report, sh Shape, primary string, plan []*injected) {
 	if r.SampleN() < 5 && (rec.CommitClass != work.ENone || r.SampleN() < 1) {
 		r.Sample(map[string]any{"shape": sh.String(), "faults": names, "commit_answer": rec.CommitClass, "outcome": out, "recovery_path": v.Path})
 	}
-	trace.CheckUniverse(tr, env.U, []*work.TxnRec{rec}, label, trace.Options{CheckBuffer: true, GCWindows: [][2]int64{gcw}})
+	trace.CheckUniverse(tr, env.U, []*work.TxnRec{rec}, label, trace.Options{CheckBuffer: true, GCWindows: gcws})
 }
 
 func TestVerifC03(t *testing.T) {
-	r := vrep.New("C03", "c03-faults", "every small transaction shape x commit mode: a fault-free dry run yields the RPC trace of Commit (must not answer undetermined); then every single fault of {drop request, drop response, deliver-late, NotLeader, EpochNotMatch, ServerIsBusy, StaleCommand, region split at this RPC, another client expires the lock and resolves it at this RPC} at every RPC index, plus seed-sampled ordered double faults; after Commit returned: drain, late deliveries executed, clock past every TTL, observer reads + GC resolve pass, then the answer is checked against the MVCC truth (nil => committed everywhere; definite error => never visible; undetermined only when a commit-point request was lost); distinct = distinct (shape, fault plan, answer, outcome)")
+	r := vrep.New("C03", "c03-faults", "every small transaction shape x commit mode: a fault-free dry run yields the RPC trace of Commit (must not answer undetermined); then every single fault of {drop request, drop response, deliver-late, NotLeader, EpochNotMatch, ServerIsBusy, StaleCommand, region split at this RPC, another client expires the lock and resolves it at this RPC} at every RPC index, plus seed-sampled ordered double faults; after Commit returned: drain, late deliveries executed, clock past every TTL, observer reads + GC resolve pass, then the answer is checked against the MVCC truth (nil => committed everywhere; definite error => never visible; undetermined only when a commit-point request was lost); the recovering observer is, for sticky plans on async commit / 1PC (second phase lost for good after the answer) and every eighth execution, a resolver whose CheckTxnStatus / CheckSecondaryLocks / ResolveLock requests meet a region that split under them, and for another eighth a GC pass whose region splits between the scanned locks; every successful GC pass is held to its contract (no lock <= safe point left); distinct = distinct (shape, fault plan, answer, outcome)")
 	defer r.Finish(t)
 	tr := vrep.New("C04", "c04-on-c03", "C04 trace monitor over the C03 fault executions (retries, regrouped batches, resolver races)")
 	defer tr.Finish(t)
@@ -678,6 +800,14 @@ func TestVerifC03(t *testing.T) {
 	r.Floor("answer_undetermined", 3)
 	r.Floor("sticky_fault_executions", 50)
 	r.Floor("push_reads", 8)
+	// recovery under a stale region cache / a GC pass with a split must have been exercised
+	r.Floor("recovery:resolver-region-error", 20)
+	r.Floor("recovery:gc-split", 20)
+	r.Floor("resolver_region_error:CheckTxnStatus", 5)
+	r.Floor("resolver_region_error:ResolveLock", 5)
+	if be := os.Getenv("VERIF_CRASH_BACKEND"); be == "" || be == uni.Uni {
+		r.Floor("resolver_region_error:CheckSecondaryLocks", 3)
+	}
 	_ = rand.Int
 	_ = sort.Strings
 }
